@@ -399,6 +399,27 @@ fn formed_with(seed: u64, n: usize, cfg: &Cfg, renew: Renew, lat: (u64, u64), jo
             break;
         }
     }
+    // a formed cluster has a past: some members have refuted suspicions before (their incarnation is no longer 0).
+    // The past is made through the public API - the member is handed a suspicion about itself, refutes it and
+    // gossips - and given time to reach everybody (every member pings every other within 2n-1 rounds).
+    if ok {
+        let mut hr = Rng64::derive(seed, 0x4157, n as u64);
+        let mut any = false;
+        for i in 0..n {
+            if hr.chance(1, 3) {
+                let me = sim.nodes[i].node.id();
+                let inc = *hr.pick(&[0u16, 0, 1, 6]);
+                sim.call(i, Op::Apply(vec![Member::new(me, inc, State::Suspect)], true), acc)?;
+                any = true;
+            }
+        }
+        if any {
+            acc.tally("formed_clusters_with_refuted_suspicions_in_their_past", 1);
+            let t = sim.now + (2 * n as u64 + 1) * cfg.p;
+            sim.run_until(t, acc, &mut nop)?;
+            ok = sim.full_view_alive();
+        }
+    }
     // premise of C03/C04/C05: a formed, quiet cluster
     let quiet = sim.nodes.iter().all(|x| x.errs.is_empty() && x.notes.iter().all(|(_, n)| matches!(n, N::MemberUp(_) | N::Active)));
     if !ok || !quiet {
